@@ -5,11 +5,12 @@
  * [d:][h:][m:]s[.f] (d_* members) gives the integer fields left to right and the one %f token of the seconds.
  *
  * "evaluates back": days/hours/minutes are the LAST three integer fields (whatever their number), W = their value in
- * microseconds; the seconds token prints the double  (usecs - W) / 10^6  (numerator and denominator of that division are the
+ * microseconds (W1 + W2 + W3); the seconds token prints the double  (usecs - W) / 10^6  (numerator and denominator of that division are the
  * ghosts of c18_ratio), at the requested precision.  How printf rounds that double to P decimals is libc (not decided here). */
 #ifndef CONTRACTS_C18_DURATION_H
 #define CONTRACTS_C18_DURATION_H
 #include "stubs/C18_text.h"
+#include "spec/C18_arith.h"
 
 extern uint64_t g_dur_lo, g_dur_hi;
 
@@ -17,8 +18,11 @@ extern uint64_t g_dur_lo, g_dur_hi;
 #define DUR_MIN(t)  ((t)->d_nf >= 1 ? (t)->d_f[(t)->d_nf - 1] : 0)
 #define DUR_HR(t)   ((t)->d_nf >= 2 ? (t)->d_f[(t)->d_nf - 2] : 0)
 #define DUR_DAY(t)  ((t)->d_nf >= 3 ? (t)->d_f[(t)->d_nf - 3] : 0)
-/* value of the integer fields in microseconds, in 128-bit arithmetic (no wrap-around for any field values) */
-#define DUR_WHOLE(t) (((((unsigned __int128)DUR_DAY(t) * 24 + DUR_HR(t)) * 60) + DUR_MIN(t)) * 60000000ull)
+/* value of the integer fields in microseconds; the bounds keep every product below 2^64 (no wrap-around in the specification) */
+#define DUR_W1(t) (DUR_DAY(t) * C18_US_DAY)
+#define DUR_W2(t) (DUR_HR(t) * C18_US_HOUR)
+#define DUR_W3(t) (DUR_MIN(t) * C18_US_MIN)
+#define DUR_NOWRAP(t) (DUR_DAY(t) <= 213503982ull && DUR_HR(t) <= 5124095576ull && DUR_MIN(t) <= 307445734561ull)
 
 void format_duration(c18_text* ret, uint64_t usecs, int8_t subsecond_precision)
 __CPROVER_requires(__CPROVER_is_fresh(ret, sizeof(c18_text)))
@@ -35,7 +39,9 @@ __CPROVER_ensures(verif_exc == 0 ==> (ret->d_nf >= 1 ==> ret->d_sec_lead + ret->
 __CPROVER_ensures(verif_exc == 0 ==> (ret->d_nf == 0 ==> ret->d_sec_lead == 0))
 /* 4. evaluates back to the input: fields * unit + seconds == usecs, the seconds token prints (usecs - W) / 10^6 */
 __CPROVER_ensures(verif_exc == 0 ==> (g_ratio_calls == 1 && ret->d_sec_v == g_ratio_val && g_ratio_den == 1000000))
-__CPROVER_ensures(verif_exc == 0 ==> (DUR_WHOLE(ret) <= usecs && (unsigned __int128)g_ratio_num == usecs - DUR_WHOLE(ret)))
+__CPROVER_ensures(verif_exc == 0 ==> (DUR_NOWRAP(ret) && DUR_W1(ret) <= usecs && DUR_W2(ret) <= usecs - DUR_W1(ret) &&
+                                      DUR_W3(ret) <= usecs - DUR_W1(ret) - DUR_W2(ret)))
+__CPROVER_ensures(verif_exc == 0 ==> g_ratio_num == usecs - DUR_W1(ret) - DUR_W2(ret) - DUR_W3(ret))
 /* 5. mixed-radix canonical form: h < 24, m < 60, s < 60, no leading zero field */
 __CPROVER_ensures(verif_exc == 0 ==> ((ret->d_nf >= 2 ==> DUR_MIN(ret) < 60) && (ret->d_nf >= 3 ==> DUR_HR(ret) < 24)))
 __CPROVER_ensures(verif_exc == 0 ==> (g_ratio_num < 60000000 && (ret->d_nf >= 1 ==> ret->d_f[0] != 0)))
